@@ -59,6 +59,29 @@ where
     }
 }
 
+/// api-coverage: the BY-VALUE impls `Shl<T> for BigUint` / `Shr<T> for BigUint` (`Cow::Owned`) and
+/// `Shl<T> for BigInt` / `Shr<T> for BigInt` (own bodies in `impl_shift!`, `Shr` with its own copy of the
+/// round-down adjustment).  `which`: 0 = `x << k`, 1 = `x >> k`
+fn shv_u<T: Copy>(x: BigUint, k: T, which: u8) -> BigUint
+where
+    BigUint: Shl<T, Output = BigUint> + Shr<T, Output = BigUint>,
+{
+    match which {
+        0 => x << k,
+        _ => x >> k,
+    }
+}
+
+fn shv_i<T: Copy>(x: BigInt, k: T, which: u8) -> BigInt
+where
+    BigInt: Shl<T, Output = BigInt> + Shr<T, Output = BigInt>,
+{
+    match which {
+        0 => x << k,
+        _ => x >> k,
+    }
+}
+
 /// the shift amount is `<type>:<decimal>` and is parsed into exactly that primitive type
 macro_rules! shift_dispatch {
     ($x:expr, $k:expr, $which:expr, $f:ident) => {{
@@ -160,6 +183,22 @@ pub fn handle(op: &str, a: &[&str]) -> Option<String> {
         ("i.shr_assign", [x, k]) => {
             let v = parse_i(x)?;
             ok_i(&shift_dispatch!(v, k, 3, sh_i))
+        }
+        ("u.shl_val", [x, k]) => {
+            let v = parse_u(x)?;
+            ok_u(&shift_dispatch!(v, k, 0, shv_u))
+        }
+        ("u.shr_val", [x, k]) => {
+            let v = parse_u(x)?;
+            ok_u(&shift_dispatch!(v, k, 1, shv_u))
+        }
+        ("i.shl_val", [x, k]) => {
+            let v = parse_i(x)?;
+            ok_i(&shift_dispatch!(v, k, 0, shv_i))
+        }
+        ("i.shr_val", [x, k]) => {
+            let v = parse_i(x)?;
+            ok_i(&shift_dispatch!(v, k, 1, shv_i))
         }
         ("u.bit", [x, k]) => ok_b(parse_u(x)?.bit(k.parse().ok()?)),
         ("i.bit", [x, k]) => ok_b(parse_i(x)?.bit(k.parse().ok()?)),
